@@ -18,6 +18,7 @@ import AgeModel.File
 import Proofs.GoTieNative
 import Proofs.GoTiePrims
 import Proofs.GoTieSshRsa
+import Proofs.GoTieScryptCtor
 namespace AgeModel
 namespace Tie.C05
 open SpecConsts
@@ -223,6 +224,17 @@ theorem sshRsa_wrap_tie (P : Prims) {π β γ : Type} (E : GoTie.RsaEnv P π β 
       | .ok (some (ss, ls), t) => res = (ss.map GoTie.toGoStanza, none, t) ∧ ls = []
       | .ok (none, t) => res = ([], some E.eEnc, t) :=
   GoTie.sshRsa_wrap_tie P E key pub fk tape
+
+/-- the passphrase that reaches scrypt is the string the caller gave, byte for byte -/
+theorem newScryptRecipient_tie (pw : Bytes) :
+    Extracted.age_NewScryptRecipient pw =
+      .ok (if pw = [] then (⟨[], 0⟩, some ⟨"age.NewScryptRecipient", 0, []⟩) else (⟨pw, 18⟩, none)) :=
+  GoTie.newScryptRecipient_tie pw
+
+theorem newScryptIdentity_tie (pw : Bytes) :
+    Extracted.age_NewScryptIdentity pw =
+      .ok (if pw = [] then (⟨[], 0⟩, some ⟨"age.NewScryptIdentity", 0, []⟩) else (⟨pw, 22⟩, none)) :=
+  GoTie.newScryptIdentity_tie pw
 
 end Tie.C05
 end AgeModel
